@@ -30,6 +30,9 @@ CLAIMED = {
  "C10": ("proptest: generated edit histories vs. fresh-parse reference + independent raw tree-sitter incremental chain (differential), shrinking to replay files",
          "Randomised exploration: thousands of generated edit histories per run over all 23 languages; after every step the document text must equal the O-splice model and, when the text parses error-free, the tree must equal a fresh parse (a divergence that an independent, correctly driven tree-sitter incremental chain reproduces exactly is the listed tree-sitter known finding). No absence claim.",
          "Trusted: tree-sitter's fresh parse as reference; the harness's own InputEdit chain; the property is only asserted at error-free steps.", "DESIGN.md §5 C10"),
+ "C12": ("proptest: rule documents assembled from valid parts with one generated perturbation; oracle = independent static analysis of the document model (accept => consistent) + O-template/reference transforms for accepted documents; cyclic documents loaded in a child process",
+         "Randomised exploration: 10^4 (quick) to 3x10^5 (thorough) documents over 8 perturbation classes (undefined variable in fix / transform / constraints, unresolved matches / rewriter, cyclic transforms, same-node utility cycles through 9 operator shapes, no kind-determining key); every violating document must be rejected, every accepted document must expand each fix variable (string and object form, transformed variables) to the reference value and match only kinds of its kind set.",
+         "Trusted: regex crate for `replace`; the construction of the pattern for the reference bindings (C02); only accept => consistent is claimed.", "DESIGN.md §5 C12"),
  "C19": ("proptest: generated sources (all languages, syntax errors, multi-byte) x start nodes; navigation API vs. plain recursion over raw tree-sitter child(i) (reference model)",
          "Randomised exploration of navigation invariants on every node of generated trees; traversals from generated start nodes against recursive reference orders; positions against O-pos recomputation.",
          "Trusted: tree-sitter child(i)/parent as ground truth; node identity = (id, byte range); zero-width parents excluded from the sibling clause as the property states.", "DESIGN.md §5 C19"),
